@@ -6,10 +6,10 @@ set -u
 WT=$1; PATCH=$2; DEMO=$3; CHECKS=$4; DEMOFLAGS=${5:-}
 cd "$WT" || exit 2
 git checkout -q -- . ; rm -rf tests/zz_demo.rs
-run_demo() { [ "$DEMO" = "-" ] && return 0; mkdir -p tests; cp "$DEMO" tests/zz_demo.rs; timeout 900 env CARGO_NET_OFFLINE=true cargo test --offline $DEMOFLAGS --test zz_demo >/tmp/demo.log 2>&1; r=$?; rm -f tests/zz_demo.rs; rmdir tests 2>/dev/null; return $r; }
+run_demo() { [ "$DEMO" = "-" ] && return 0; mkdir -p tests; cp "$DEMO" tests/zz_demo.rs; timeout 900 env CARGO_NET_OFFLINE=true cargo test --offline $DEMOFLAGS --test zz_demo >"$WT.demo.log" 2>&1; r=$?; rm -f tests/zz_demo.rs; rmdir tests 2>/dev/null; return $r; }
 run_demo; echo "demo without change: exit $? (expect 0)"
 git apply "$PATCH" || { echo "PATCH DOES NOT APPLY"; exit 2; }
-CARGO_NET_OFFLINE=true cargo test --workspace --offline >/tmp/suite.log 2>&1; echo "suite with change: exit $? (expect 0); $(grep -c 'test result: ok' /tmp/suite.log) ok groups, passed: $(grep -o '[0-9]* passed' /tmp/suite.log | awk '{s+=$1} END{print s}')"
+CARGO_NET_OFFLINE=true cargo test --workspace --offline >"$WT.suite.log" 2>&1; echo "suite with change: exit $? (expect 0); $(grep -c 'test result: ok' "$WT.suite.log") ok groups, passed: $(grep -o '[0-9]* passed' "$WT.suite.log" | awk '{s+=$1} END{print s}')"
 run_demo; echo "demo with change: exit $? (expect != 0)"
 for C in $CHECKS; do
   out=$(cd /verif && VERIF_REPO="$WT" ./check $C 2>&1); code=$?
